@@ -701,3 +701,26 @@ impl<K: ExpiredKey<E>, E: Expiration, V: Copy> KeyExpTree<K, E, V> {
         }
     }
 }
+
+#[cfg(feature = "verif")]
+impl<K: ExpiredKey<E>, E: Expiration, V: Copy> KeyExpTree<K, E, V> {
+    pub fn verif_snapshot(&self) -> crate::verif::VerifSnapshot<(K, V)> {
+        crate::verif::VerifSnapshot {
+            root: self.root,
+            nodes: self
+                .store
+                .buffer
+                .iter()
+                .map(|n| crate::verif::VerifNode {
+                    parent: n.parent,
+                    left: n.left,
+                    right: n.right,
+                    red: n.color == Color::Red,
+                    entity: (n.entity.key, n.entity.val),
+                })
+                .collect(),
+            unused: self.store.unused.clone(),
+            unused_capacity: self.store.unused.capacity(),
+        }
+    }
+}
